@@ -25,6 +25,7 @@ var kinds = map[string]kind{
 	"cmt":   {genCmt, runCmt},
 	"txn":   {genTxn, runTxn},
 	"eos":   {genEos, runEos},
+	"tofs":  {genTofs, runTofs},
 	"cls":   {genCls, runCls},
 	"ackr":  {genAckr, runAckr},
 	"share": {genShare, runShare},
